@@ -12,6 +12,7 @@ import (
 	"verif/harness/suites/ht"
 	"verif/harness/suites/j2kblocks"
 	"verif/harness/suites/j2ke2e"
+	"verif/harness/suites/jpegent"
 	"verif/harness/suites/jpegll"
 	"verif/harness/suites/jpegls"
 	"verif/harness/suites/mq"
@@ -22,6 +23,7 @@ import (
 	"verif/harness/suites/q97"
 	"verif/harness/suites/rle"
 	t1s "verif/harness/suites/t1"
+	"verif/harness/suites/t1safe"
 	"verif/harness/vhlib"
 )
 
@@ -45,5 +47,7 @@ func main() {
 	pipe.Register(s)       // C04 (composed reversible pipeline)
 	pipestream.Register(s) // C16 C04 (walker + parser model on the composed codestream)
 	pipeht.Register(s)     // C06 (HT block coder composed into the pipeline)
+	jpegent.Register(s)    // C11 C08 C09 C15 (baseline / extended entropy layer)
+	t1safe.Register(s)     // C08 C09 (T1 block decoder on arbitrary input)
 	vhlib.Main(s)
 }
